@@ -858,7 +858,8 @@ pub fn parse(lex_tokens: &Vec<LexerToken>) -> Result<ParseResult, CompilerError>
                 Some(node) => {
                     let node: &ParseNode = node;
                     trace!("Checking if last left ({:?}) needs to be changed due to end of side effect.", last_left);
-                    if node.get_definition() == Definition::SideEffect && last_left != under_group && node.parent.is_some() {
+                    // (a side effect that took a finished operation as its left stands for that operation's result and stays last left)
+                    if node.get_definition() == Definition::SideEffect && last_left != under_group && node.parent.is_some() && node.get_left().is_none() {
                         trace!("Changing last left to side effect's parent {:?}", node.parent);
                         last_left = node.parent;
 
